@@ -448,6 +448,8 @@ impl<'tcx> TyGenContext<'_, 'tcx> {
 
             wraps_primitive: bool,
             owns_wrapped_primitive: bool,
+            /// How `_fromFFI` turns the scalar it was handed into the wrapped field's value
+            wrapped_primitive_value: String,
 
             doc_str: String,
 
@@ -478,6 +480,12 @@ impl<'tcx> TyGenContext<'_, 'tcx> {
                     struct_def.fields.first().unwrap().ty,
                     hir::Type::Primitive(..)
                 ),
+            wrapped_primitive_value: match struct_def.fields.first().map(|f| &f.ty) {
+                Some(hir::Type::Primitive(p)) => self
+                    .formatter
+                    .fmt_narrow_returned_scalar(*p, "primitiveValue"),
+                _ => "primitiveValue".into(),
+            },
 
             doc_str: self.formatter.fmt_docs(&struct_def.docs),
 
